@@ -27,6 +27,7 @@ func init() {
 			{ID: "C19-R1", Title: "wrappers call their Go namesake with arguments in order", Floor: 25, Run: c19r1},
 			{ID: "C19-R2", Title: "wrappers do not pre-validate what Go validates", Floor: 10, Run: c19r2},
 			{ID: "C19-R3", Title: "codecs pair known inverse functions over the whole input", Floor: 5, Run: c19r3},
+			{ID: "C19-R4", Title: "string methods return their Go namesake's result on every path", Floor: 8, Run: c19r4},
 		},
 	})
 }
